@@ -7,6 +7,21 @@ _NOTE = ('Trusted: Lean 4.33.0 kernel; axioms propext/Classical.choice/Quot.soun
          'hash functions, refmt cbor decoding outside the canonical header subset, go-cid/go-multihash parsing as transcribed are parameters of the model. ')
 
 TEXT = {
+    'C01': {
+        'text': 'Kernel-checked for every root list, block list and option setting: uvarint_roundtrip, cid_roundtrip (both go-cid decoders), header_roundtrip (dag-cbor header, nil vs empty roots), section_framing; writers_same_payload (the payload window depends only on roots and stored blocks, not on API/version/padding/codec); roundtrip_v1 and roundtrip_v2 (the file left by any put history, in CARv1 mode or after Finalize in CARv2 mode with any paddings and either codec, is read back by the block reader / CARv1 reader as exactly the roots and the stored blocks in order, clean EOF); roundtrip_index. '
+                'The tie writes generated content with seven writer front ends and reads each file with ten reader paths; file bytes must equal the model\'s and the layout spec\'s prediction byte for byte.',
+        'note': _NOTE + 'The stream/deferred/WriterAt front ends of StorageCar and the root-module writer are modelled as the same Store machine (they share the code path); root CarReader/LoadCar and the random-access readers are modelled (RootReader.lean) and compared differentially but have no separate round-trip theorem yet.',
+    },
+    'C04': {
+        'text': 'Refinement to a reference log (Spec.lean, ~100 lines), kernel-checked for all states reachable through the invariant and all options: create_rel, put_refines, putMany_refines (a block is skipped only when its key — multihash or whole CID — is stored or the IdStore rule applies; over-long CID rejected: oversize_rejected_unchanged; otherwise appended), has_refines, allKeys_refines (permutation), findCid_log / blockstore_get / storage_get (Get returns exactly the bytes of a stored block carrying the key, or not-found when none does: never an error, never foreign bytes), identity_get, closed_rejects (after Discard/Close/Finalize every write and non-identity lookup errors and the file never changes), finalized_rejects_put. '
+                'The tie runs random op sequences on real blockstore files and storage CARs and compares every result with model and reference.',
+        'note': _NOTE + 'Known finding printed on the unchanged tree: GetSize ignores StoreIdentityCIDs (pinned by go-car\'s own TestReadOnly, so recorded not repaired). A whole-run theorem over arbitrary op lists is given per operation (step lemmas), the induction over lists is proved for PutMany.',
+    },
+    'C05': {
+        'text': 'Kernel-checked: header_arith (data offset = 51 + data padding, data size = payload length, index offset = end of payload + index padding, fully-indexed bit iff StoreIdentityCIDs; uint64 wrap-around excluded by an explicit bound), pragma_and_flag_position, finalize_layout / blockstore_finalize / storage_finalize (for every state reachable through the invariant, Finalize leaves exactly pragma ++ header ++ padding ++ CARv1 header(roots) ++ sections in put order ++ index padding ++ flattened index, and returns ok/closed), v1_file_is_payload, finalized_reads_back (the block reader accepts the file and returns roots + blocks). '
+                'The tie compares finalized files byte-for-byte with the layout spec and runs the real Inspect(true) and VerifyCar on them.',
+        'note': _NOTE + '"The index resolves exactly those sections" rests on the differential run (index lookups, C03) — the lookup theorem is still open; Inspect/VerifyCar acceptance is checked on the real code for every generated file, their models come with C13/C19.',
+    },
     'C03': {
         'text': 'Kernel-checked, for every block list and every option setting: loadIndex_records_v1/_v2 (LoadIndex over a CARv1, or a CARv2 with any paddings and with or without a trailing index, returns exactly every section\'s CID with the payload-relative offset of its length prefix, identity CIDs iff StoreIdentityCIDs), loadIndex_kind_independent (seekable = plain stream, CARv1 = wrapping CARv2), offset_decodes (the section at each recorded offset decodes to that block), loadLoop_cid_too_large. '
                 'The tie runs LoadIndex on real archives for both reader kinds and the three index types and compares GetAll/GetFirst/ForEach with the model (I = M) and with a reference scan of the block list (I ~ S).',
